@@ -24,7 +24,9 @@ RULES = {
     "R06.8": "the total a group-backed proposal is measured against is the sum of the voters' weights of the same snapshot: both "
              "group contracts keep TOTAL = sum of MEMBERS on every membership write, at the height of the write, and the cw4 helper "
              "the multisig calls (Cw4Contract::total_weight / is_member) reads exactly those cells (shared with C09 R09.1 / R09.2 / R09.5)",
-    "R06.6": "frozen membership (fixed): nothing writes VOTERS or CONFIG outside instantiate",
+    "R06.6": "frozen membership: (fixed) nothing writes VOTERS or CONFIG outside instantiate; (flex) whatever rewrites the "
+             "configuration later carries the group address over from the stored one - a proposal's voters are measured at its own "
+             "start height, which only means something in the group it was opened against",
 }
 
 
@@ -151,6 +153,7 @@ def run(ctx):
                 and not o.key.startswith(("anchor", "floor")):
             ctx.ob("R06.8", o.key, True if o.status == "discharged" else (None if o.status == "undecided" else False),
                    detail="; ".join(o.details), sites=o.sites, sample=o.sample, trivial=o.trivial)
+    check_flex_group_fixed(ctx, it)
     # R06.6
     eps = entry_points(ctx.facts, "cw3_fixed_multisig")
     for name, fn in sorted(eps.items()):
@@ -162,6 +165,30 @@ def run(ctx):
                 bad += [e for e in p.effects if e.kind == "write" and e.item in (it["voters"], it["fixed_config"])]
         ctx.ob("R06.6", "cw3_fixed_multisig::%s" % name, not bad, sites=[e.site for e in bad],
                detail="%s writes VOTERS/CONFIG after instantiation" % name, sample={"writes": 0})
+
+
+def check_flex_group_fixed(ctx, it):
+    """R06.6 (flex): the group a proposal's ballots are measured in is the one its snapshot height belongs to"""
+    eps = entry_points(ctx.facts, "cw3_flex_multisig")
+    CFG = it["flex_config"]
+    n = 0
+    for name, fn in sorted(eps.items()):
+        if name in ("instantiate", "query"):
+            continue
+        for p in ctx.summarise(fn, opaque={CS}):
+            if p.is_err():
+                continue
+            for e in p.effects:
+                if e.kind == "write" and e.item == CFG:
+                    n += 1
+                    base, fields = update_base(e.value) if e.op != "remove" else (None, {})
+                    lf = loaded_from(base) if base is not None else None
+                    keeps = lf is not None and lf[0] == CFG and lf[2] == e.ver and "group_addr" not in fields
+                    ctx.ob("R06.6", "cw3_flex_multisig::%s keeps the group" % name, keeps, sites=[e.site],
+                           detail="flex CONFIG written after instantiation with the group address not carried over from the stored "
+                                  "configuration: open proposals would measure their voters at their own start height in a different group",
+                           sample={"changed": sorted(fields)})
+    ctx.ob("R06.6", "cw3_flex_multisig: group fixed after instantiation", True, trivial=True, sample={"config_writes_after_instantiate": n})
 
 
 def check_creation_weight(ctx, key, crate, ballot, prop, W, VOTERS, p=None):
